@@ -50,6 +50,7 @@ type handler1 struct {
 	keepAlive        uint16
 	clientID         string
 	topicID          *util.IDSequence
+	noMoreTopicIDs   bool // topicID has wrapped: every TopicID may be in use
 	pktBuffer        []snPkts.Packet
 	group            *errgroup.Group
 	transactions     *transactions.TransactionStore
@@ -484,8 +485,15 @@ func (h *handler1) mqttReceiveLoop(ctx context.Context) error {
 }
 
 func (h *handler1) newTopicID() (uint16, error) {
+	// IDSequence signals the overflow only once and then starts over from
+	// the beginning. TopicIDs are never released, so after the first
+	// overflow every other TopicID would collide with one already in use.
+	if h.noMoreTopicIDs {
+		return 0, ErrTopicIDsExhausted
+	}
 	topicID, overflow := h.topicID.Next()
 	if overflow {
+		h.noMoreTopicIDs = true
 		return 0, ErrTopicIDsExhausted
 	}
 	for {
@@ -493,6 +501,7 @@ func (h *handler1) newTopicID() (uint16, error) {
 			break
 		}
 		if topicID, overflow = h.topicID.Next(); overflow {
+			h.noMoreTopicIDs = true
 			return 0, ErrTopicIDsExhausted
 		}
 	}
